@@ -24,7 +24,9 @@
        doc comment's specification, and agrees with the original wherever that returns;
      - pre_order_iter_total : iter/tree.rs PreOrderIter yields the recursive pre-order in
        exactly n = size steps (n are necessary and sufficient) with a stack that never
-       exceeds  max(1, max arity) * height  entries.
+       exceeds  max(1, max arity) * height  entries;
+     - post_order_iter_total : PostOrderIter never reaches its unwrap / stack[idx] panic
+       sites, never runs out of the stated fuel and yields exactly n items.
    The other theorems the design lists for C11 live with the builders that own the models:
    tree_total (C10, expression/mod.rs), decode_total (C04), ord_total/eq_total (C19; refuted:
    DESIGN 10-d), interp_total (C13), lift_total/policy_total (C18; refuted: DESIGN 10-e).
@@ -32,7 +34,7 @@
    inventory, which also names the runtime behaviours that are outside any model:
    native stack depth of recursive code, allocation size, run time, third-party crates.  *)
 From Coq Require Import List NArith Bool.
-From Verif Require Import Bytes RobustModel RobustProofs RobustLexProofs RobustTreeProofs.
+From Verif Require Import Bytes RobustModel RobustProofs RobustLexProofs RobustTreeProofs RobustPostProofs.
 Import ListNotations.
 Local Open Scope N_scope.
 
@@ -111,6 +113,16 @@ Theorem pre_order_iter_total_C11 : forall t : rtree,
 Proof. exact pre_order_iter_total. Qed.
 Print Assumptions pre_order_iter_total_C11.
 
+(* PostOrderIter (with child indices and parent stack positions), modelled with its panic sites
+   (nth_child(idx).unwrap(), self.stack[idx]) and explicit fuel: no panic, fuel suffices,
+   exactly n = size items are yielded.
+   PARTIAL: that the yielded labels are the recursive post-order and that the child indices
+   point at the children is checked on examples below only, not proved. *)
+Theorem post_order_iter_total_C11 : forall t : rtree,
+  exists ys, post_order t = ROk ys /\ length ys = rsize t.
+Proof. exact post_order_iter_total. Qed.
+Print Assumptions post_order_iter_total_C11.
+
 (* non-vacuity: the hypotheses are satisfiable and the models compute *)
 Example threshold_wf_example : thr_new 20 2 [1; 2; 3] = ROk (mkThr 2 [1; 2; 3]) /\ thr_wf 20 (mkThr 2 [1; 2; 3]).
 Proof. split; [reflexivity|]. unfold thr_wf; cbn; repeat split; try (left; reflexivity); try (right; discriminate); discriminate. Qed.
@@ -131,4 +143,10 @@ Proof. split; vm_compute; reflexivity. Qed.
 
 Example pre_order_example :
   pre_run 5 [RNode 1 [RNode 2 [RNode 3 []]; RNode 4 []]] = Some [1; 2; 3; 4].
+Proof. vm_compute. reflexivity. Qed.
+
+Example post_order_example :
+  option_map (map (fun y => (y_label y, y_index y, y_children y)))
+    (match post_order (RNode 1 [RNode 2 [RNode 3 []]; RNode 4 []]) with ROk ys => Some ys | _ => None end)
+  = Some [(3, 0, []); (2, 1, [0]); (4, 2, []); (1, 3, [1; 2])].
 Proof. vm_compute. reflexivity. Qed.
